@@ -93,7 +93,7 @@ func (cs c11Case) String() string {
 
 func c11Job(id int, cs c11Case, rcByKM map[string]string, keysByKM map[string]map[string]string) harness.Job {
 	ex, sh := c11Exits[cs.exit], c11Shapes[cs.shape]
-	km := map[string]string{"emacs": "emacs", "vi-insert": "vi-insert", "vi-command": "vi-command", "visual": "vi-command"}[cs.mode]
+	km := map[string]string{"emacs": "emacs", "vi-insert": "vi-insert", "vi-command": "vi-command", "visual": "vi-command", "operator-pending": "vi-command"}[cs.mode]
 	rc := rcByKM[km]
 	if cs.transient {
 		rc += "set prompt-transient on\n"
@@ -143,7 +143,7 @@ func c11Job(id int, cs c11Case, rcByKM map[string]string, keysByKM map[string]ma
 				ans = append(ans, Key("\x02"))
 			}
 		}
-	case "vi-command", "visual":
+	case "vi-command", "visual", "operator-pending":
 		ans = append(ans, Key("\x1b"))
 		switch cs.cursor {
 		case "start":
@@ -157,6 +157,9 @@ func c11Job(id int, cs c11Case, rcByKM map[string]string, keysByKM map[string]ma
 		}
 		if cs.mode == "visual" {
 			ans = append(ans, Key("v"))
+		}
+		if cs.mode == "operator-pending" {
+			ans = append(ans, Key("d")) // the exit key arrives while an operator waits for its motion
 		}
 	}
 	ans = append(ans, Keys(sh.pre...)...)
@@ -312,7 +315,7 @@ func runC11(c *Ctx) {
 	var cases []c11Case
 	cursors := []string{"end", "middle", "start"}
 	for ei := range c11Exits {
-		for _, mode := range []string{"emacs", "vi-insert", "vi-command", "visual"} {
+		for _, mode := range []string{"emacs", "vi-insert", "vi-command", "visual", "operator-pending"} {
 			for si := range c11Shapes {
 				for _, cur := range cursors {
 					for _, w := range []int{20, 8} {
